@@ -27,7 +27,7 @@ type filePeer struct {
 	afterClose int // requests carrying the handle seen after CLOSE
 	closed     bool
 	reorders   int
-	emptyData  bool // answer READ with empty DATA (never at EOF)
+	emptyData  bool   // answer READ with empty DATA (never at EOF)
 	failClose  uint32 // non-zero: CLOSE is answered with this status code
 }
 
